@@ -315,6 +315,54 @@ def scope_arg_class(F, f, d, op):
     return o.get("k")
 
 
+
+def let_use_ordering(F, res, rule="S3"):
+    """S3: in a let / use statement the initialiser is visited in the old scope before the binder's scope exists; the binders go into the new scope;
+    later statements see it (extracted so that C09 can state it too: the inferencer resolves names through these scopes)."""
+    # ---- S3
+    ts = F.fn(SC + "traverse_expr_stmts")
+    d = FL.Defs(ts)
+    b0, t = match_on(ts, d, "ide::def::module::Statement")
+    if t is None:
+        res.anchor_missing(rule, "match on Statement in traverse_expr_stmts")
+    else:
+        sdm = {n_: v for v, n_ in F.discr_map("ide::def::module::Statement").items()}
+        tg, reach = regions(ts, t, avoid=b0)
+        common = set.intersection(*reach.values()) if len(reach) > 1 else set()
+        for st in ("Let", "Use"):
+            target = tg.get(sdm[st])
+            region = (reach[target] - common) if target is not None else set()
+            trav = [b for b, tt in ts.calls() if b in region and callee(tt) == SC + "traverse_expr"]
+            alloc = [b for b, tt in ts.calls() if b in region and is_scope_alloc(F, tt)]
+            bind = [(b, tt) for b, tt in ts.calls() if b in region and callee(tt) == SC + "add_bindings"]
+            ok_order = len(trav) == 1 and len(alloc) == 1 and ts.dominates(trav[0], alloc[0])
+            res.ob(rule, "%s/initialiser-before-new-scope" % st, "in a %s statement the initialiser is visited (in the old scope) before the binder's scope is allocated" % st.lower(),
+                   ok_order, where=ts.loc(t["ln"]), how="traverse_expr sites %d, alloc sites %d, order ok: %s" % (len(trav), len(alloc), ok_order))
+            old = all(scope_arg_class(F, ts, d, ts.term(b)["args"][3]).startswith(("param", "running")) for b in trav)
+            # at the time of the traversal the running scope has not yet been reassigned in this arm: the alloc is after it (ok_order)
+            res.ob(rule, "%s/initialiser-in-old-scope" % st, "the initialiser of a %s is resolved in the scope before the statement" % st.lower(), old and ok_order,
+                   where=ts.loc(t["ln"]), how="scope argument: %s" % [scope_arg_class(F, ts, d, ts.term(b)["args"][3]) for b in trav])
+            newscope = bool(bind) and all(ts.dominates(alloc[0], b) for b, _ in bind) if alloc else False
+            res.ob(rule, "%s/binders-in-new-scope" % st, "the binders of a %s go into the newly allocated scope" % st.lower(), newscope, where=ts.loc(t["ln"]),
+                   how="add_bindings sites %d, all after the allocation: %s" % (len(bind), newscope))
+        # the running scope is updated: the local holding the scope has a definition from alloc inside the loop
+        running = False
+        for l, defs in d.defs.items():
+            ks = set()
+            for dd in defs:
+                if dd[2] == "call" and is_scope_alloc(F, dd[3]):
+                    ks.add("alloc")
+                if dd[2] == "assign" and dd[3]["rv"]["k"] == "use":
+                    oo = d.origin_op(dd[3]["rv"]["op"])
+                    if oo.get("k") == "arg":
+                        ks.add("param")
+                    if oo.get("k") == "call" and is_scope_alloc(F, oo["t"]):
+                        ks.add("alloc")
+            if ks == {"alloc", "param"}:
+                running = True
+        res.ob(rule, "later-statements-see-binder", "the running scope variable is replaced by the new scope, so later statements see the binder",
+               running, where=ts.loc(), how="a local is defined both from the parameter and from the allocations: %s" % running)
+
 def run(F, res, tier):
     visitor_completeness(F, res, "traverse_expr", "Expr")
     visitor_completeness(F, res, "add_bindings", "Pattern")
@@ -379,49 +427,7 @@ def run(F, res, tier):
     res.ob("S2", "one-scope-per-clause", "the scope of a case clause is allocated once per clause (inside the per-clause closure or the loop over the clauses)",
            okc, where=te.loc(), how=why_c)
     res.ob("S2", "lambda-scope", "a lambda body gets a scope of its own, allocated in traverse_expr's Lambda arm", okl, where=te.loc(), how=why_l)
-    # ---- S3
-    ts = F.fn(SC + "traverse_expr_stmts")
-    d = FL.Defs(ts)
-    b0, t = match_on(ts, d, "ide::def::module::Statement")
-    if t is None:
-        res.anchor_missing("S3", "match on Statement in traverse_expr_stmts")
-    else:
-        sdm = {n_: v for v, n_ in F.discr_map("ide::def::module::Statement").items()}
-        tg, reach = regions(ts, t, avoid=b0)
-        common = set.intersection(*reach.values()) if len(reach) > 1 else set()
-        for st in ("Let", "Use"):
-            target = tg.get(sdm[st])
-            region = (reach[target] - common) if target is not None else set()
-            trav = [b for b, tt in ts.calls() if b in region and callee(tt) == SC + "traverse_expr"]
-            alloc = [b for b, tt in ts.calls() if b in region and is_scope_alloc(F, tt)]
-            bind = [(b, tt) for b, tt in ts.calls() if b in region and callee(tt) == SC + "add_bindings"]
-            ok_order = len(trav) == 1 and len(alloc) == 1 and ts.dominates(trav[0], alloc[0])
-            res.ob("S3", "%s/initialiser-before-new-scope" % st, "in a %s statement the initialiser is visited (in the old scope) before the binder's scope is allocated" % st.lower(),
-                   ok_order, where=ts.loc(t["ln"]), how="traverse_expr sites %d, alloc sites %d, order ok: %s" % (len(trav), len(alloc), ok_order))
-            old = all(scope_arg_class(F, ts, d, ts.term(b)["args"][3]).startswith(("param", "running")) for b in trav)
-            # at the time of the traversal the running scope has not yet been reassigned in this arm: the alloc is after it (ok_order)
-            res.ob("S3", "%s/initialiser-in-old-scope" % st, "the initialiser of a %s is resolved in the scope before the statement" % st.lower(), old and ok_order,
-                   where=ts.loc(t["ln"]), how="scope argument: %s" % [scope_arg_class(F, ts, d, ts.term(b)["args"][3]) for b in trav])
-            newscope = bool(bind) and all(ts.dominates(alloc[0], b) for b, _ in bind) if alloc else False
-            res.ob("S3", "%s/binders-in-new-scope" % st, "the binders of a %s go into the newly allocated scope" % st.lower(), newscope, where=ts.loc(t["ln"]),
-                   how="add_bindings sites %d, all after the allocation: %s" % (len(bind), newscope))
-        # the running scope is updated: the local holding the scope has a definition from alloc inside the loop
-        running = False
-        for l, defs in d.defs.items():
-            ks = set()
-            for dd in defs:
-                if dd[2] == "call" and is_scope_alloc(F, dd[3]):
-                    ks.add("alloc")
-                if dd[2] == "assign" and dd[3]["rv"]["k"] == "use":
-                    oo = d.origin_op(dd[3]["rv"]["op"])
-                    if oo.get("k") == "arg":
-                        ks.add("param")
-                    if oo.get("k") == "call" and is_scope_alloc(F, oo["t"]):
-                        ks.add("alloc")
-            if ks == {"alloc", "param"}:
-                running = True
-        res.ob("S3", "later-statements-see-binder", "the running scope variable is replaced by the new scope, so later statements see the binder",
-               running, where=ts.loc(), how="a local is defined both from the parameter and from the allocations: %s" % running)
+    let_use_ordering(F, res)
     lambda_param_range(F, res)
     resolver_provenance(F, res)
     qualifier_first(F, res)
